@@ -77,6 +77,7 @@ pub proof fn lemma_started_shape(st: BState, payloads: Seq<u8>)
 /// induction over call histories: the buffer is always fixed part + address block + payloads
 /// in call order; control bytes and address value never change; reservations have no effect;
 /// the length in force is the last one set
+#[verifier::rlimit(60)]
 pub proof fn lemma_run_shape(st: BState, ops: Seq<BOp>, payloads: Seq<u8>)
     requires b_shape(st, st.vc, st.afp, st.addr, payloads)
     ensures
@@ -132,6 +133,7 @@ pub open spec fn v2_wire(vc: u8, afp: u8, len: int, body: Seq<u8>) -> Seq<u8> {
 /// what `build` returns after any history that started from a constructor: the signature, the
 /// two control bytes as given, the length in force (else the actual payload size), the
 /// construction-time address block and the payloads in call order -- nothing else
+#[verifier::rlimit(60)]
 pub proof fn lemma_build_history(st0: BState, ops: Seq<BOp>, v: Seq<u8>)
     requires
         st0.buf is None,
@@ -230,6 +232,7 @@ pub proof fn lemma_addr_roundtrip(a: V2Addresses)
 /// bytes, the wire form is accepted by the v2 acceptance condition with the same command,
 /// transport, family and addresses, reports exactly its own bytes, and -- when a family is
 /// specified -- its TLV section walks back to the same TLVs in order
+#[verifier::rlimit(60)]
 pub proof fn lemma_c07_roundtrip(cmd: Command, proto: Protocol, a: V2Addresses, tlvs: Seq<(u8, Seq<u8>)>, r: Result<V2Header, V2Error>)
     requires
         tlv_list_ok(tlvs),
